@@ -20,6 +20,7 @@ type Clause struct {
 type LoopSpec struct {
 	Invariants []*Clause
 	Decreases  *Clause
+	Hints      []*Clause // definitional instances (unfold(...)) assumed in the loop
 }
 
 type Contract struct {
@@ -372,6 +373,11 @@ func (e *Engine) LoadContractFile(file, pkgPath string) error {
 					ls.Invariants = append(ls.Invariants, c)
 				case "decreases":
 					ls.Decreases = c
+				case "hint":
+					if err := checkHint(c.Expr); err != nil {
+						return fail(err)
+					}
+					ls.Hints = append(ls.Hints, c)
 				default:
 					return fail(fmt.Errorf("loop clause %q", w3))
 				}
@@ -394,6 +400,27 @@ func (e *Engine) LoadContractFile(file, pkgPath string) error {
 		}
 	}
 	return nil
+}
+
+// checkHint: a hint may only consist of unfold(...) instances (valid by
+// definition of the recursive spec function), so assuming it is sound.
+func checkHint(x ast.Expr) error {
+	switch n := x.(type) {
+	case *ast.ParenExpr:
+		return checkHint(n.X)
+	case *ast.BinaryExpr:
+		if n.Op.String() == "&&" {
+			if err := checkHint(n.X); err != nil {
+				return err
+			}
+			return checkHint(n.Y)
+		}
+	case *ast.CallExpr:
+		if id, ok := n.Fun.(*ast.Ident); ok && id.Name == "unfold" {
+			return nil
+		}
+	}
+	return fmt.Errorf("a hint must be a conjunction of unfold(f(args)) instances")
 }
 
 func splitWord(s string) (string, string) {
